@@ -1,12 +1,12 @@
-;;! C18 case: shape=cycle:box op=host-display size=1
-;;! stack=main bound=20
-;;! verdict: (witness of finding K18b) — Display of a box formats its content with Display for SteelVal again (fresh depth counter, fresh cycle table): a box that contains itself recurses until the native stack overflows; a 10^5 chain of boxes overflows a 2 MiB stack
+;;! C18 case: shape=cycle:mvec/map op=host-display size=1
+;;! stack=main bound=10
+;;! verdict: (witness of finding K18b) — Display of HashMapV / HashSetV formats the collection through {:#?}, i.e. Display/Debug for SteelVal again for every key and value (fresh depth counter, fresh cycle table): a mutable vector holding a hash map that holds the vector recurses until the native stack overflows; 10^3 nested hash maps take 6 s of CPU and 4 MB to print (cubic), 10^5 never finish
 ;;! model: display_reenters_display
 ;;! replay: ./check C18 --replay <this file>   (pieces are separated by the line ;;;---)
 (struct node (next) #:transparent)
 (struct mnode (next) #:mutable #:transparent)
-(define d0 (box 0))
-(set-box! d0 d0)
+(define d0 (vector 0))
+(vector-set! d0 0 (hash 'k d0))
 (define d d0)
 
 ;;;---
